@@ -103,5 +103,20 @@ def chain_cancel(f_outer, f_inner):
     )
 
 
+def notify_cancel(f):
+    """Done-callback for futures created and resolved by this library
+    without an executor (e.g. outputs of f_zip, f_or, f_and).
+
+    Nothing will ever call set_running_or_notify_cancel() on such a future,
+    so if it is cancelled, do that here: otherwise callers blocked in
+    concurrent.futures.wait() or as_completed() would never be woken."""
+    if f.cancelled():
+        try:
+            f.set_running_or_notify_cancel()
+        except RuntimeError:
+            # already notified
+            pass
+
+
 def wrap(f):
     return EXECUTOR.flat_bind(lambda: f)
